@@ -432,6 +432,16 @@ def run(ses, rep):
                 rep.add(oid, status, v)
 
 
+def fallback(rep):
+    """kernels undecided: the configuration batteries are run; only a failing concrete oracle is reported"""
+    sc, v, rec = battery()
+    if v:
+        rep.add(f"battery/{sc}", rep.violation({"obligation": "battery-after-undecided-kernel", "scenario": sc}, {"what": "kernel undecided; configuration battery", "observed": v, "run": rec}), v)
+    from .. import cfgorigin
+    for name, v, rec in cfgorigin.battery(common.native_build("default"))[:3]:
+        rep.add(f"battery/{name}", rep.violation({"obligation": "battery-after-undecided-kernel", "scenario": name}, {"what": "kernel undecided; origin battery", "observed": v, **rec}), v)
+
+
 def replay(path):
     sc, v, rec = battery()
     if not v:
